@@ -265,5 +265,11 @@ fn(H2 + ".__init__", inline=True,
        ("C18.h2.header-list-enforced", "self.connection.decoder.max_header_list_size == config.h2_max_header_list_size", "C18"),
        ("C18.h2.frame", "self.connection.DEFAULT_MAX_INBOUND_FRAME_SIZE == config.h2_max_inbound_frame_size", "C18"),
        ("H2.init", "not self.closed and self.keep_alive_requests == 0", "C18"),
+       # C09 "a stalled or reset stream never stops other streams": the send task's priority tree
+       # holds, besides the open streams, the root, placeholders of PRIORITY frames and streams that
+       # are finished or reset but not yet taken out by the send task; it is built with the
+       # library's own capacity, not with one tied to the advertised stream concurrency (beyond
+       # even that capacity: finding F4d)
+       ("C09.init.priority-capacity", "self.priority.capacity >= 1000", "C09,C04"),
    ],
    props=("C18",))
